@@ -6,7 +6,7 @@ state in ``net["_active_pit"]`` exactly like the real solves do (so step rejecti
 One run = a batch of scripted cases; every case is a bounded sequence of per-iteration raw Newton
 steps and residuals drawn around the tolerances (below / at / above, NaN, inf; decreasing, stalling,
 oscillating, increasing, late blow-up), for both damping methods, several initial alphas, budgets
-0..8 and the three variable layouts (hydraulics, heat, bidirectional).
+0..8 (thorough tier: up to 16) and the three variable layouts (hydraulics, heat, bidirectional).
 
 Oracle = the property, evaluated on what the scripted solve actually did in the last executed
 iteration: converged  =>  every returned unknown group changed by <= its tolerance, residual <=
@@ -51,7 +51,7 @@ TOLS = {"tol_m": 1e-5, "tol_p": 1e-5, "tol_T": 1e-3, "tol_res": 1e-3}
 def generate(seed, tier, prop):
     rng = random.Random(seed)
     ncases = 150 if tier == "quick" else 400
-    cases = [_gen_case(rng) for _ in range(ncases)]
+    cases = [_gen_case(rng, deep=(tier != "quick")) for _ in range(ncases)]
     return {"engine": ENGINE, "prop": prop, "seed": seed, "tier": tier, "ops": cases}
 
 
@@ -60,17 +60,17 @@ def _mag(rng, tol, kind):
     return tol * rng.choice(table[kind])
 
 
-def _gen_case(rng):
+def _gen_case(rng, deep=False):
     layout = rng.choice(["hyd", "hyd", "heat", "bidir", "bidir"])
     groups = LAYOUTS[layout][5]
     method = rng.choice(["constant", "automatic", "automatic"])
     alpha0 = rng.choice([1, 1, 0.5, 0.1, 0.01])
-    max_iter = rng.choice([0, 1, 2, 3, 4, 5, 6, 8])
+    max_iter = rng.choice([0, 1, 2, 3, 4, 5, 6, 8] + ([10, 12, 16] if deep else []))
     tols = dict(TOLS)
     if rng.random() < 0.3:
         for k in tols:
             tols[k] = rng.choice([1e-8, 1e-5, 1e-2])
-    sizes = {"branch": rng.randint(1, 3), "node": rng.randint(1, 3)}
+    sizes = {"branch": rng.randint(1, 5 if deep else 3), "node": rng.randint(1, 5 if deep else 3)}
     sizes["slack"] = rng.randint(1, sizes["node"])
     pattern = rng.choice(["decreasing", "stalling", "oscillating", "increasing", "late-blowup",
                           "converge-then-one-bad", "random", "nan-once", "all-good"])
